@@ -13,32 +13,41 @@ CHECK = {
         suite("redir", "c01", 3, 18, stdin=True, args=["-kind", "redir"], timeout={"quick": 600, "thorough": 1500}),
         suite("raft1", "c01", 0, 30, stdin=True, tiers=["thorough"], args=["-kind", "raft1"], timeout={"thorough": 1200}),
         suite("kill", "c01", 0, 16, stdin=True, tiers=["thorough"], args=["-kind", "kill"], timeout={"thorough": 1200}),
-        suite("net", "c01", 0, 24, stdin=True, tiers=["thorough"], args=["-kind", "net"], timeout={"thorough": 1200}),
+        suite("net", "c01", 0, 32, stdin=True, tiers=["thorough"], args=["-kind", "net"], timeout={"thorough": 1200}),
     ],
     "gen": [{"pkg": "extract_c01", "out": "lean/ClusterVerif/Gen/C01Commit.lean"}],
     "extra": [_conclusive],
     "search_seeds": {"quick": 3, "thorough": 1},
     "lean_sources": ["ClusterVerif/Model/Pin.lean", "ClusterVerif/Model/C01.lean", "ClusterVerif/Spec/C01.lean",
                      "ClusterVerif/Lemmas/C01.lean", "ClusterVerif/Lemmas/PinMap.lean",
-                     "ClusterVerif/Model/C01Commit.lean", "ClusterVerif/Lemmas/C01Commit.lean", "ClusterVerif/Gen/C01Commit.lean"],
-    "rule": "one case = one history: a committed sequence of 0-60 pin/unpin LogOps over 6 CIDs (all pin types, modes/depths incl. disagreeing ones, "
+                     "ClusterVerif/Model/C01Commit.lean", "ClusterVerif/Lemmas/C01Commit.lean", "ClusterVerif/Gen/C01Commit.lean",
+                     "ClusterVerif/Model/C01Gate.lean"],
+    "rule": "one case = one history: a SUBMITTED sequence of 0-60 pin/unpin operations, each run through the real commit() up to its first attempt "
+            "(token G: refused operations - origins, Reference=cid.Undef, undefined Cid - are answered with an error and are not committed; the model's "
+            "Op.decodable must agree with every bit), the committed sequence being the LogOps over 6 CIDs (all pin types, modes/depths incl. disagreeing ones, "
             "allocation lists 0-4, metadata incl. empty key/value, expiry zero/unix-zero/past/future, reference and update cids of both CID versions, "
             "user allocations, tracing on/off) and a script of events on 1-3 replicas (apply next entry, Snapshot(), Persist(), install the newest "
             "snapshot of another replica onto the live state, shutdown, kill, restart, offline read), with the observation after every event. "
             "Families per case index: random walks with catch-up epilogue, systematic placement of one disruption at every position of a 3-6 op history, "
-            "late-Persist scripts (K09 stream), histories ending in an op with origins (K01a stream). Thorough adds real Raft: one node "
+            "late-Persist scripts (K09 stream), histories with 1-3 refused submissions anywhere, back-to-back batches behind a slow Track handler (hand-off order), "
+            "and kind fsmraw: raw log entries the FSM cannot decode fed past commit() (robustness, not reachable through LogPin/LogUnpin: judged up to that entry, then only compared with the model). Thorough adds real Raft: one node "
             "(commit/snapshot/shutdown/OfflineState/restart), a node in a child process SIGKILLed with an op in flight, three nodes with TrailingLogs=1 "
-            "where a stopped follower is brought back by InstallSnapshot onto its restored state. Suite redir (both tiers): three real nodes, CommitRetries 0-2, "
+            "where a stopped follower is brought back by InstallSnapshot onto its restored state, and histories in which the LEADER is shut down or stopped without a snapshot between commits, "
+            "a new leader continues, and the old leader comes back (clauses judged on the survivors and on the restarted old leader). Suite redir (both tiers): three real nodes, CommitRetries 0-2, "
             "LogPin/LogUnpin/AddPeer/RmPeer submitted at a follower or the leader while the leader's RPC endpoint fails the next N forwarded requests "
-            "(N = 0, retries, retries+1, retries+2). The undecodable stream draws origins, Reference=cid.Undef and undefined Cid. non-trivial = at least one entry applied; distinct by case line",
+            "(N = 0, retries, retries+1, retries+2), plus LogPin/LogUnpin of operations that cannot be decoded (refused before anything is forwarded, followed by an unpin that must be visible everywhere). "
+            "The undecodable stream draws origins, Reference=cid.Undef and undefined Cid. non-trivial = at least one entry applied; distinct by case line",
     "trusted_base": [
         "Raft (hashicorp/raft + raft-boltdb) delivers one committed sequence to every member, keeps every entry after a member's newest snapshot, "
         "and fsyncs entries before acknowledging: the committed sequence `ops` is a parameter of the model",
         "the FSM-level harness plays Raft's role (which entry is next, which snapshot is newest) as hashicorp/raft v1.1.1 does; its 'applied' counter mirrors raft.lastApplied",
+        "hook file /repo/consensus/raft/verif_export_c01gate.go (VerifCommitGate = the real commit() on a Consensus whose CommitRetries is -1: everything commit() does "
+        "before its retry loop, no attempt; does not name checkDecodable, so it compiles against a tree without it)",
         "hook file /repo/consensus/raft/verif_export_c01.go (VerifNewFSM = first half of NewConsensus without a Raft instance, VerifEncodeOp/VerifEncodeTracedOp = "
         "the LogOp as commit() builds it, encoded like go-libp2p-raft encodeOp; VerifRaft, VerifLogCommands read-only accessors)",
-        "extract_c01 (go/ast) reads the statement skeleton of redirectToLeader/commit/AddPeer/RmPeer; the fault injector of suite redir stands for an unreachable or abdicating leader",
-        "recording PinTracker behind a real in-process gorpc server; in-memory datastore as cmdutils.raftStateManager.GetStore provides",
+        "extract_c01 (go/ast) reads the statement skeleton of redirectToLeader/commit/AddPeer/RmPeer and of the decodability gate (call of checkDecodable on commit's op, "
+        "top-level and unconditional, before the retry loop, error returned; LogPin/LogUnpin return commit's error); the fault injector of suite redir stands for an unreachable or abdicating leader",
+        "recording PinTracker behind a real in-process gorpc server (calls recorded in arrival order; a slow Track handler stands for a busy tracker); in-memory datastore as cmdutils.raftStateManager.GetStore provides",
     ],
     "assumptions": [
         "well-formed pins have agreeing mode and depth (the mode clause of tracker_handoff is only required of those)",
@@ -48,17 +57,21 @@ CHECK = {
 }
 META = {
     "text": "Kernel-checked theorems over a model of the Raft replicas of the pinset (LogOp decode + ApplyTo, two-phase FSM snapshots, Restore onto the live "
-            "state, shutdown/kill/restart, offline read): for every committed sequence without origins and EVERY schedule, each key a peer serves holds a "
+            "state, shutdown/kill/restart, offline read) joined to a model of the commit path: commit() refuses an operation that cannot be decoded before any attempt "
+            "(undecodable_refused_no_attempt, ack_implies_decodable), so the log left by ANY history of LogPin/LogUnpin calls holds only decodable entries (gated_log_decodable) and no FSM is "
+            "ever inconsistent or poisoned (gated_never_inconsistent); for every such history and EVERY schedule, each key a peer serves holds a "
             "committed value of a present-or-future prefix, a caught-up peer serves exactly the replay of the whole sequence, and every peer can always catch up "
-            "again (future_inv, caught_up_exact, catch_up_reachable, ack_visible_durable); for schedules with point-in-time snapshots a peer serves exactly "
+            "again (future_inv, caught_up_exact, ack_applied_everywhere, ack_visible_durable); the tracker is called synchronously and receives exactly the calls of the applied entries in log order "
+            "(handoff_order; the asynchronous dispatch the code had before 2ba6875 is refuted: async_handoff_order_fails); for schedules with point-in-time snapshots a peer serves exactly "
             "replay(ops.take applied) (prefix_inv_partial) and the model's observations satisfy every clause of the property as written from its text "
             "(model_holds_partial); the commit path (commit/AddPeer/RmPeer over redirectToLeader), as a function of an oracle of attempt outcomes with the statement "
             "skeleton regenerated from the source by a go/ast translator, acknowledges only what some attempt committed, reports an error exactly when none did, and "
             "consumes at most (CommitRetries+1)^2 attempts (ack_implies_some_attempt_committed, all_fail_reports_error, retry_bound); an applied entry hands exactly its pin to the tracker (tracker_handoff). The full-strength statements are refuted by "
             "kernel-checked witnesses where the code really breaks them (prefix_inv_fails / some_prefix_fails: go-libp2p-raft snapshots are not point-in-time, K09; "
-            "decode_total_fails / caught_up_exact_fails: pins with origins, K01a). The model is tied to the code by driving the real FSM (and, thorough, real Raft "
+            "decode_total_fails / caught_up_exact_fails: raw log entries with origins, no longer reachable through commit). The model is tied to the code by driving the real FSM (and, thorough, real Raft "
             "nodes incl. SIGKILL and InstallSnapshot) with seeded event scripts and comparing every observation with the model, and the Spec clauses are evaluated on the implementation's observations.",
     "note": "Trusted: Lean kernel, hand-written model/spec, Raft's log replication and durability (hashicorp/raft, boltdb), the harness playing Raft's role at FSM level, "
-            "the hook file consensus/raft/verif_export_c01.go. Known findings K01a (origins) and K09 (snapshot not point-in-time) are reproduced and reported, not hidden.",
+            "the hook files consensus/raft/verif_export_c01.go and verif_export_c01gate.go. Known finding K09 (snapshot not point-in-time) is reproduced and reported, not hidden; "
+            "K01a/K01b (undecodable operations acknowledged) and K29 (hand-off order) are fixed in /repo (3d753d4, 2ba6875) and suppress nothing.",
     "technique": "Lean 4 invariants by induction over event sequences + refutation witnesses + differential correspondence (FSM-level deterministic, real Raft thorough)",
 }
